@@ -72,6 +72,8 @@ Lemma K_par_hook_shape : par_hook_shape = true.
 Proof. reflexivity. Qed.
 Lemma K_par_queue_ctors : par_n_queue_ctor = 3%Z /\ par_n_simple_queue_ctor = 0%Z /\ par_n_try = 3%Z.
 Proof. repeat split; reflexivity. Qed.
+Lemma K_par_rss_shapes : par_rss_init_shape = true /\ par_rss_reseed_shape = true.
+Proof. split; reflexivity. Qed.
 Lemma K_par_child_seed x : par_child_seed x = x.
 Proof. unfold par_child_seed; lia. Qed.
 Lemma K_par_n_global_rng_calls : par_n_global_rng_calls = 0%Z.
